@@ -32,7 +32,7 @@ WitTtlVsSignal == ~(\E i \in Req : woke[i] = "ttl" /\ sig[i])        \* the TTL 
 WitSkipGone == ~(\E i \in Req : gone[i] /\ i \in heap)               \* an abandoned request still in the heap
 
 \* creation stamps of timers only matter for the driver's delivery order: hidden unless Driver
-View == <<now, counter, wend, heap, waitcnt, lock, ts, gated, parked, sig, woke, peek, gone, deadline, res, relWin, rollAt, cur, rq, rel, ok, strand, pc>>
+View == <<now, counter, wend, heap, waitcnt, lock, ts, gated, parked, sig, woke, peek, gone, deadline, res, relWin, rollAt, cur, rq, rel, turn, ok, strand, pc>>
 ViewL == <<View, last>>
-ViewD == <<View, stamp, rollStamp, seq, rev, held>>
+ViewD == <<View, stamp, rollStamp, seq, rev, fired, held>>
 =============================================================================
